@@ -3,6 +3,8 @@ import Poly.Proofs.MerkleServe
 import Poly.Proofs.MerkleStore
 import Poly.Proofs.MerkleComplete
 import Poly.Proofs.MerkleCons
+import Poly.Proofs.MerkleArray
+import Poly.Proofs.MerkleBits
 /-!
 # C06 — Block-hash accumulator is a correct append-only Merkle tree
 
@@ -244,6 +246,45 @@ theorem marshal_roundtrip (hlen : HashLen H) (D : List (List UInt8)) (st : Optio
     rw [hsame, hi2.2.1]
     intro y hy
     exact frontier_len32 H hlen _ (by intro z hz; simp at hz; obtain ⟨d, _, rfl⟩ := hz; exact hlen _) y hy
+
+/-- `countBit` exactly as the Go loop (`num &= num - 1` until zero) is the digit sum used in the model. -/
+theorem countBit_loop_exact (n : Nat) : countBitGo n = countBit n := Poly.Proofs.MerkleBits.countBitGo_eq n
+
+/-- The store of an `n`-leaf tree holds `2n - popcount(n)` hashes. -/
+theorem stored_hash_count (n : Nat) : storedHashNum n + countBit n = 2 * n :=
+  Poly.Proofs.MerkleBits.storedHashNum_add_countBit n
+
+/-- Range in which the `Nat` model of the `uint32` arithmetic is exact: for trees below 2^31 leaves
+`treeSize + 1`, every subtree size (`id * 2 - 1`), every store position (prefix sums of `getSubTreePos`,
+`offset + k*2 - 1`, `pos[p] + offset + k*2 - 1`: all of them positions of stored hashes, by the generator
+theorems) and the store length stay below 2^32, so no `uint32` operation of the generators wraps. -/
+theorem uint32_range (n : Nat) (h : n < 2 ^ 31) :
+    n + 1 < 2 ^ 32 ∧ storedHashNum n ≤ 2 * n ∧ storedHashNum n < 2 ^ 32 ∧
+    (∀ s ∈ getSubTreeSize n, s < 2 ^ 32) ∧ (∀ p ∈ getSubTreePos n, p < 2 ^ 32) :=
+  Poly.Proofs.MerkleBits.uint32_range n h
+
+/-- `merkleRoot(n)` recomputed from the store is the RFC 6962 root of the first `n` leaves. -/
+theorem stored_root_correct (D : List (List UInt8)) (isFile : Bool) (s : State) (n : Nat)
+    (h : State.appendAll H ⟨emptyTree, freshStore isFile⟩ D = .ok s) (hn1 : 1 ≤ n) (hn : n ≤ D.length) :
+    ∃ st, s.store = some st ∧ merkleRoot H (getHash1 st) n = .ok (mth H ((D.map (hashLeaf H)).take n)) := by
+  obtain ⟨s', h', hi⟩ := sinv_appendAll H D [] ⟨emptyTree, freshStore isFile⟩
+    (sinv_empty H _ (by intro x hx; simp [freshStore] at hx; subst hx; rfl))
+  rw [h] at h'; cases h'
+  simp only [List.nil_append] at hi
+  obtain ⟨_, st, hst, _, _⟩ := store_postorder H D isFile s h
+  exact ⟨st, hst, Poly.Proofs.MerkleBits.merkleRoot_ok H _ s st n hi hst hn1 (by simpa using hn)⟩
+
+/-- The compiled driver keeps the hash store in an array (`Poly.Model.MerkleArray.AStore`); it reads,
+appends (overwriting stale file content) and reopens exactly as the list-backed store of the model, so the
+correspondence runs the model's generators on the model's store. -/
+theorem driver_store_refines (a : Poly.Model.MerkleArray.AStore) (new : List Hash) (keep : Option Nat) (n : Nat)
+    (hw : a.wpos ≤ a.arr.size) :
+    a.reader = getHash1 a.toStore ∧
+    (a.put new).toStore = a.toStore.put new ∧ (a.put new).wpos ≤ (a.put new).arr.size ∧
+    (a.reopen keep n).map Poly.Model.MerkleArray.AStore.toStore =
+      reopenFile (match keep with | none => a.arr.toList | some k => a.arr.toList.take k) n :=
+  ⟨Poly.Proofs.MerkleArray.reader_eq a, (Poly.Proofs.MerkleArray.put_eq new a hw).1,
+   (Poly.Proofs.MerkleArray.put_eq new a hw).2, Poly.Proofs.MerkleArray.reopen_eq a keep n⟩
 
 /-- The hypotheses are satisfiable: a concrete three-leaf history (with `H` the identity the root shows
 the RFC shape `1 ‖ (1 ‖ 0a ‖ 0b) ‖ 0c`). -/
